@@ -5,7 +5,7 @@
    NodePool's instance types; [spec_cap offs r] the reservation's capacity (least reported); an op [(h, cands)] is
    one pod tried on NodeClaim [h] (new if unseen) where [cands] are the reservation ids of the reserved, available
    offerings compatible with the NodeClaim after adding the pod - any list, so every bin-packing is covered. *)
-From KV Require Import C17.Model C17.Spec C17.Proofs C17.DraModel C17.DraProofs.
+From KV Require Import C17.Model C17.Spec C17.Proofs C17.DraModel C17.DraSpec C17.DraProofs.
 Open Scope string_scope.
 Open Scope Z_scope.
 
@@ -94,6 +94,17 @@ Theorem fragment_is_step : forall gate md s h fresh pod s' out,
 Proof. exact fstep_is_step. Qed.
 Print Assumptions fragment_is_step.
 
+(* Multi-step: every sequence of pods with In-requirements on zone / capacity type / instance type over any catalogue
+   of NodePool templates (reservation ids shared freely). The candidates are computed by the model (cands_of), they
+   are always known to the manager, the run is total, and over-commit freedom and exact pinning hold at the end. *)
+Theorem fragment_pass : forall tpls gate md ops, caps_nonneg (tpls_offs tpls) -> fops_ok tpls ops ->
+  exists fs, frun gate md (finit tpls) ops = Some fs /\
+    (forall r c0, spec_cap (tpls_offs tpls) r = Some c0 ->
+       0 <= holders (fs_core fs) r <= c0 /\ cap (s_mgr (fs_core fs)) r = Some (c0 - holders (fs_core fs) r)) /\
+    (forall h r, (match pin (fs_core fs) h with Some ids => In r ids | None => False end) <-> holds (s_mgr (fs_core fs)) h r = true).
+Proof. exact fragment_pass_l. Qed.
+Print Assumptions fragment_pass.
+
 (* The boolean oracles evaluated on the implementation's observations decide the specification. *)
 Theorem oracle_snapshot_sound : forall offs s, snap_holds_b offs s = true <-> snap_holds offs s.
 Proof. exact snap_holds_b_spec. Qed.
@@ -133,6 +144,48 @@ Theorem committed_device_blocks_others_partial : forall t n its t' d it,
 Proof. exact committed_blocks. Qed.
 Print Assumptions committed_device_blocks_others_partial.
 
+(* A proposal that passed the allocator's guard (IsAllocated false for every device on its instance type, no device
+   twice) never reaches a panic of Commit, from any consistent tracker state. *)
+Theorem guarded_commit_never_panics_partial : forall t n its, DInv t -> guarded t n its = true ->
+  exists t', dcommit t n its = Some t'.
+Proof. exact guarded_commit_total. Qed.
+Print Assumptions guarded_commit_never_panics_partial.
+
+(* Shared counters of partitionable devices. For every sequence of commits and instance-type releases over any
+   NodeClaims in which each commit passed the allocator's counter check in the state it was applied to: the remaining
+   budget never goes below zero, and what has been deducted is exactly the sum over NodeClaims of the largest
+   consumption among the instance types the NodeClaim still spans (so release restores precisely). Partial: that the
+   allocator only proposes commits passing the check is validated on the real Allocator, not proved. *)
+Theorem counters_nonnegative_partial : forall rem0 ns ops, NoDup ns -> (forall o, In o ops -> In (lop_nc o) ns) ->
+  (forall k, 0 <= rem0 k) -> lguarded rem0 linit ops ->
+  forall k, 0 <= rem0 k - l_used (lrun ops) k /\ l_used (lrun ops) k = lsum (fun n => pmax (lrun ops) n k) ns.
+Proof. exact counters_nonnegative_l. Qed.
+Print Assumptions counters_nonnegative_partial.
+
+(* Consumable capacity of multi-allocatable devices: preallocated + in-flight never exceeds the device capacity. *)
+Theorem capacity_within_partial : forall capacity pre ns ops, NoDup ns -> (forall o, In o ops -> In (lop_nc o) ns) ->
+  (forall k, 0 <= pre k <= capacity k) -> lguarded (fun k => capacity k - pre k) linit ops ->
+  forall k, pre k + l_used (lrun ops) k <= capacity k /\ 0 <= l_used (lrun ops) k /\
+            l_used (lrun ops) k = lsum (fun n => pmax (lrun ops) n k) ns.
+Proof. exact capacity_within_l. Qed.
+Print Assumptions capacity_within_partial.
+
+(* The tracker applies the counter ledger and the capacity ledger component-wise to its commits and releases. *)
+Theorem tracker_applies_ledgers : forall ops x x', xrun x ops = Some x' ->
+  x_cnt x' = fold_left lstep (flat_map xop_cnt ops) (x_cnt x) /\ x_cap x' = fold_left lstep (flat_map xop_cap ops) (x_cap x).
+Proof. exact xrun_ledgers. Qed.
+Print Assumptions tracker_applies_ledgers.
+
+Theorem oracle_final_sound : forall pre budgets tbudgets recs,
+  final_ok_b pre budgets tbudgets recs = true <-> final_ok pre budgets tbudgets recs.
+Proof. exact final_ok_b_spec. Qed.
+Print Assumptions oracle_final_sound.
+
+Theorem oracle_budgets_sound : forall rem infl capb tused tb,
+  budgets_ok_b rem infl capb tused tb = true <-> budgets_ok rem infl capb tused tb.
+Proof. exact budgets_ok_b_spec. Qed.
+Print Assumptions oracle_budgets_sound.
+
 (* Non-vacuity: a pass in which a second NodeClaim is deferred in strict mode and falls back otherwise, a release by
    narrowing that lets another NodeClaim acquire the reservation, a pool pair reporting different capacities. *)
 Example strict_pass :
@@ -163,6 +216,23 @@ Example dra_example :
   drun (dinit []) [c1; DCommit "n2" [("a", [mkDev "d1" false])]] = None /\
   (match drun (dinit []) [c1; DRelease "n1" ["a"; "b"]] with
    | Some t => dis_allocated t (mkDev "d1" false) "n2" "a" | None => true end) = false.
+Proof. vm_compute. repeat split; reflexivity. Qed.
+
+Example ledger_example :
+  (* n1 spans a and b and consumes 3 on a, 1 on b: 3 is charged; n2 consumes 2; releasing a from n1 refunds 2 *)
+  let ops := [LCommit "n1" [("a", [("k", 3)]); ("b", [("k", 1)])]; LCommit "n2" [("a", [("k", 2)])]] in
+  l_used (lrun ops) "k" = 5 /\ l_used (lrun (ops ++ [LRelease "n1" ["a"]])) "k" = 3 /\
+  lguard_b (fun _ => 5) ["k"] (lrun ops) [("a", [("k", 1)])] = false /\
+  consumed_capacity (Some 4) 16 (Some (mkPol None (Some (Some 1, Some 9, Some 2)) [])) = 5 /\
+  violates_policy 11 (Some (mkPol None (Some (Some 1, Some 9, Some 2)) [])) = true.
+Proof. vm_compute. repeat split; reflexivity. Qed.
+
+Example final_example :
+  final_ok_b [] [("k", 4)] []
+    [mkRec "c1" "n1" "a" "d" false true [("k", 3)]; mkRec "c2" "n2" "a" "e" false true [("k", 2)]] = false /\
+  final_ok_b [] [("k", 4)] []
+    [mkRec "c1" "n1" "a" "d" false true [("k", 3)]; mkRec "c1" "n1" "b" "e" false true [("k", 4)]] = true /\
+  final_ok_b [] [] [] [mkRec "c1" "n1" "a" "d" false true []; mkRec "c2" "n2" "a" "d" false true []] = false.
 Proof. vm_compute. repeat split; reflexivity. Qed.
 
 Example choice_example :
